@@ -28,6 +28,10 @@ class SysCls(SymVal):
     def sym_getattr(self, it, name):
         if name == 'modal': return bool(self.logic.Meta.modal)
         raise Outside(f'System.{name}')
+class LazyFilter(SymVal):
+    "itertools.filterfalse / filter over a sequence: evaluated item by item by the consumer"
+    def __init__(self, pred, items, keep): self.pred, self.items, self.keep = pred, items, keep
+    def sym_iter(self, it): return [x for x in self.items if bool(it.truth(it.call(self.pred, [x], {}))) == self.keep]
 class TrunkBranch(SymVal):
     "records appended nodes; `b += x` runs the real Branch.__iadd__ (interpreted) over append/extend contracts"
     def __init__(self): self.nodes = []
@@ -36,8 +40,20 @@ class TrunkBranch(SymVal):
             def append(it, n): self.nodes.append(n); return self
             return Contract(append, 'Branch.append')
         if name == 'extend':
-            def extend(it, ns): self.nodes += it.iterate(ns); return self
+            def extend(it, ns):
+                if isinstance(ns, LazyFilter):           # a lazy filter is pulled one item at a time, between the appends
+                    for x in ns.items:
+                        if bool(it.truth(it.call(ns.pred, [x], {}))) == ns.keep: self.nodes.append(x)
+                else: self.nodes += it.iterate(ns)
+                return self
             return Contract(extend, 'Branch.extend')
+        if name in ('has', '__contains__'):
+            def has(it, m):
+                mp = getattr(m, 'props', None)
+                if mp is None: raise Outside('Branch.has of a non-node')
+                same = lambda a, b: (a is b) or (repr(a) == repr(b) and type(a) is type(b))
+                return any(all(k in n.props and same(n.props[k], v) for k, v in mp.items() if v is not None) for n in self.nodes)
+            return Contract(has, 'Branch.has (a node with these properties is on the branch)')
         raise Outside(f'Branch.{name}')
     def sym_binop(self, it, op, other, reflected):
         if op == 'Add' and not reflected:
@@ -56,9 +72,14 @@ def trunk_obligation(logic, funcs):
     fi = source.of_function(fn)
     funcs[fi.key] = dict(file=fi.relfile, qualname=fi.qualname, lines=f'{fi.lineno}-{fi.end_lineno}', sha1=fi.sha1)
     world = R.make_world()
+    import itertools as _it
+    world.builtin_models[_it.filterfalse] = lambda it, pred, xs: LazyFilter(pred, it.iterate(xs), False)
+    world.builtin_models[filter] = lambda it, pred, xs: LazyFilter(pred, it.iterate(xs), True)
     bad = []
-    for k in (0, 1, 2, 3):
-        prem = [Atom(f'P{i}') for i in range(k)]; concl = Atom('C')
+    P = [Atom(f'P{i}') for i in range(3)]
+    # premise lists of length 0..3, and lists in which a premise is repeated or is the conclusion (an argument keeps repetitions)
+    for k, prem_ in ((0, []), (1, P[:1]), (2, P[:2]), (3, P[:3]), ('2-repeated', [P[0], P[0]]), ('3-repeated', [P[0], P[1], P[0]]), ('conclusion-among-premises', [P[0], 'C'])):
+        concl = Atom('C'); prem = [concl if x == 'C' else x for x in prem_]
         def run(path):
             it = Interp(path, world)
             b = TrunkBranch()
